@@ -138,7 +138,7 @@ const (
 	c17ROk = iota
 	c17RErr
 	c17RPanic
-	c17RFatal // a non-null root field whose resolver fails
+	c17RBad // the resolver returns a value whose completion fails (nil for a non-null type, a non-list for a list type)
 )
 
 // deferred values (mirror tbeh)
@@ -153,6 +153,7 @@ const (
 // response-key order is document order
 type c17Node struct {
 	id int
+	nn bool // the field's type is non-null: a failure escapes to the enclosing selection
 	rb int
 	th int
 	ch []*c17Node
@@ -163,24 +164,32 @@ func (n *c17Node) coq() string {
 	for i, c := range n.ch {
 		cs[i] = c.coq()
 	}
-	return fmt.Sprintf("(Node %d %s %s %s)", n.id, []string{"ROk", "RErr", "RPanic", "RFatal"}[n.rb],
+	return fmt.Sprintf("(Node %d %s %s %s %s)", n.id, coqBool(n.nn), []string{"ROk", "RErr", "RPanic", "RBad"}[n.rb],
 		[]string{"TNow", "TLater", "TLaterFail"}[n.th], coqList(cs))
 }
 
-// the field a node selects: fN an object, sN a string, nN a non-null string
+// the field a node selects: fN an object, gN a non-null object, sN a string,
+// nN a non-null string, lN a list of strings, mN a non-null list of strings
 func (n *c17Node) fieldName() string {
+	k := "s"
 	switch {
-	case n.rb == c17RFatal:
-		return fmt.Sprintf("n%d", n.id)
+	case len(n.ch) > 0 && n.nn:
+		k = "g"
 	case len(n.ch) > 0:
-		return fmt.Sprintf("f%d", n.id)
+		k = "f"
+	case n.rb == c17RBad && n.nn && n.id%2 == 1:
+		k = "m"
+	case n.rb == c17RBad && !n.nn:
+		k = "l"
+	case n.nn:
+		k = "n"
 	}
-	return fmt.Sprintf("s%d", n.id)
+	return fmt.Sprintf("%s%d", k, n.id)
 }
 
 func (n *c17Node) write(sb *strings.Builder) {
 	fmt.Fprintf(sb, " %c: %s", 'a'+n.id, n.fieldName())
-	if len(n.ch) > 0 && n.rb != c17RFatal {
+	if len(n.ch) > 0 {
 		sb.WriteString(" {")
 		for _, c := range n.ch {
 			c.write(sb)
@@ -417,16 +426,18 @@ const c17MaxIDs = 12
 func c17Schema(q c17Req, exts []graphql.Extension) (graphql.Schema, error) {
 	byID := map[int]*c17Node{}
 	c17Walk(q.roots, func(n *c17Node) { byID[n.id] = n })
-	deliver := func(id int, value interface{}) (interface{}, error) {
+	deliver := func(id int, value, bad interface{}) (interface{}, error) {
 		n := byID[id]
 		if n == nil {
 			return value, nil
 		}
 		switch n.rb {
-		case c17RErr, c17RFatal:
+		case c17RErr:
 			return nil, fmt.Errorf("resolver %d failed", id)
 		case c17RPanic:
 			panic(fmt.Sprintf("resolver %d panicked", id))
+		case c17RBad:
+			return bad, nil
 		}
 		switch n.th {
 		case c17TLater:
@@ -441,19 +452,16 @@ func c17Schema(q c17Req, exts []graphql.Extension) (graphql.Schema, error) {
 		fields := graphql.Fields{}
 		for i := 0; i < c17MaxIDs; i++ {
 			id := i
-			fields[fmt.Sprintf("s%d", i)] = &graphql.Field{
-				Type:    graphql.String,
-				Args:    graphql.FieldConfigArgument{"x": &graphql.ArgumentConfig{Type: graphql.Int}},
-				Resolve: func(p graphql.ResolveParams) (interface{}, error) { return deliver(id, fmt.Sprintf("v%d", id)) },
-			}
-			fields[fmt.Sprintf("n%d", i)] = &graphql.Field{
-				Type:    graphql.NewNonNull(graphql.String),
-				Resolve: func(p graphql.ResolveParams) (interface{}, error) { return deliver(id, fmt.Sprintf("v%d", id)) },
-			}
-			fields[fmt.Sprintf("f%d", i)] = &graphql.Field{
-				Type:    obj,
-				Resolve: func(p graphql.ResolveParams) (interface{}, error) { return deliver(id, map[string]interface{}{}) },
-			}
+			str := func(p graphql.ResolveParams) (interface{}, error) { return deliver(id, fmt.Sprintf("v%d", id), nil) }
+			list := func(p graphql.ResolveParams) (interface{}, error) { return deliver(id, []string{"x"}, 5) }
+			object := func(p graphql.ResolveParams) (interface{}, error) { return deliver(id, map[string]interface{}{}, nil) }
+			fields[fmt.Sprintf("s%d", i)] = &graphql.Field{Type: graphql.String, Resolve: str,
+				Args: graphql.FieldConfigArgument{"x": &graphql.ArgumentConfig{Type: graphql.Int}}}
+			fields[fmt.Sprintf("n%d", i)] = &graphql.Field{Type: graphql.NewNonNull(graphql.String), Resolve: str}
+			fields[fmt.Sprintf("l%d", i)] = &graphql.Field{Type: graphql.NewList(graphql.String), Resolve: list}
+			fields[fmt.Sprintf("m%d", i)] = &graphql.Field{Type: graphql.NewNonNull(graphql.NewList(graphql.String)), Resolve: list}
+			fields[fmt.Sprintf("f%d", i)] = &graphql.Field{Type: obj, Resolve: object}
+			fields[fmt.Sprintf("g%d", i)] = &graphql.Field{Type: graphql.NewNonNull(obj), Resolve: object}
 		}
 		return fields
 	}
@@ -525,12 +533,12 @@ func c17Emit(e *Emitter, group string, q c17Req, behs []*c17ExtBeh, extraTags ..
 	}
 	feat := map[string]bool{}
 	for _, n := range q.roots {
-		if n.rb == c17RFatal {
+		if n.nn && n.rb != c17ROk {
 			feat["root-non-null-failure"] = true
 		}
 		c17Walk(n.ch, func(c *c17Node) {
 			feat["nested"] = true
-			if c.rb == c17RFatal {
+			if c.nn && c.rb != c17ROk {
 				feat["nested-non-null-failure"] = true
 			}
 		})
@@ -539,11 +547,17 @@ func c17Emit(e *Emitter, group string, q c17Req, behs []*c17ExtBeh, extraTags ..
 		if n.th != c17TNow {
 			feat["thunk"] = true
 		}
+		if n.rb == c17RBad {
+			feat["completion-failure"] = true
+		}
+		if n.nn && len(n.ch) > 0 {
+			feat["non-null-parent"] = true
+		}
 	})
 	if q.class == c17Exec && q.mut {
 		feat["mutation"] = true
 	}
-	for _, f := range []string{"root-non-null-failure", "nested", "nested-non-null-failure", "thunk", "mutation"} {
+	for _, f := range []string{"root-non-null-failure", "nested", "nested-non-null-failure", "thunk", "mutation", "completion-failure", "non-null-parent"} {
 		if feat[f] {
 			extraTags = append(extraTags, f)
 		}
@@ -655,6 +669,9 @@ func c17Apply(x *c17ExtBeh, slot, fault int) {
 
 func c17N(id, rb, th int, ch ...*c17Node) *c17Node { return &c17Node{id: id, rb: rb, th: th, ch: ch} }
 
+// a field of non-null type
+func c17NN(id, rb int, ch ...*c17Node) *c17Node { return &c17Node{id: id, nn: true, rb: rb, ch: ch} }
+
 // the tree a(f0){ b c(f2){ d } } e with a deferred, c deferred, e a failing deferred value
 func c17ThunkTree() []*c17Node {
 	return []*c17Node{
@@ -672,11 +689,15 @@ var c17Classes = []c17Req{
 	{class: c17VarErr},
 	{class: c17Exec, roots: c17Flat(c17ROk)},
 	{class: c17Exec, roots: c17Flat(c17RPanic, c17ROk, c17RErr)},
-	{class: c17Exec, roots: c17Flat(c17ROk, c17RFatal, c17ROk)},
+	{class: c17Exec, roots: []*c17Node{c17N(0, c17ROk, c17TNow), c17NN(1, c17RErr), c17N(2, c17ROk, c17TNow)}},
+	// values whose completion fails: a non-list for a list, nil for a non-null root field
+	{class: c17Exec, roots: []*c17Node{c17N(0, c17RBad, c17TNow), c17N(1, c17ROk, c17TNow), c17NN(2, c17RBad), c17N(3, c17ROk, c17TNow)}},
+	// a failure that escapes through a non-null parent to the nearest nullable field
+	{class: c17Exec, roots: []*c17Node{c17N(0, c17ROk, c17TNow, c17NN(1, c17ROk, c17NN(2, c17RBad), c17N(3, c17ROk, c17TNow)), c17N(4, c17ROk, c17TNow)), c17N(5, c17ROk, c17TNow)}},
 	// nested selections
 	{class: c17Exec, roots: []*c17Node{c17N(0, c17ROk, c17TNow, c17N(1, c17ROk, c17TNow), c17N(2, c17ROk, c17TNow, c17N(3, c17RErr, c17TNow))), c17N(4, c17ROk, c17TNow)}},
 	// a non-null failure below a nullable object: the rest of that selection is skipped
-	{class: c17Exec, roots: []*c17Node{c17N(0, c17ROk, c17TNow, c17N(1, c17RFatal, c17TNow), c17N(2, c17ROk, c17TNow)), c17N(3, c17ROk, c17TNow)}},
+	{class: c17Exec, roots: []*c17Node{c17N(0, c17ROk, c17TNow, c17NN(1, c17RPanic), c17N(2, c17ROk, c17TNow)), c17N(3, c17ROk, c17TNow)}},
 	// deferred values: query (breadth first) and mutation (depth first after each root field)
 	{class: c17Exec, roots: c17ThunkTree()},
 	{class: c17Exec, mut: true, roots: c17ThunkTree()},
@@ -692,21 +713,25 @@ func c17RandTree(r *Rng) []*c17Node {
 		for i := 0; i < k && next < c17MaxIDs; i++ {
 			n := &c17Node{id: next}
 			next++
+			n.nn = r.Chance(22)
 			switch x := r.Intn(100); {
-			case x < 12:
+			case x < 10:
 				n.rb = c17RErr
-			case x < 22:
+			case x < 18:
 				n.rb = c17RPanic
-			case x < 29:
-				n.rb = c17RFatal
+			case x < 32:
+				n.rb = c17RBad
 			}
-			switch x := r.Intn(100); {
-			case x < 25:
-				n.th = c17TLater
-			case x < 35:
-				n.th = c17TLaterFail
+			if !n.nn { // deferred values of non-null type are outside the model
+				switch x := r.Intn(100); {
+				case x < 25:
+					n.th = c17TLater
+				case x < 35:
+					n.th = c17TLaterFail
+				}
 			}
-			if n.rb != c17RFatal && depth < 3 && r.Chance(40) && next < c17MaxIDs {
+			// a nullable object has no value whose completion fails; such a field stays a leaf
+			if (n.rb != c17RBad || n.nn) && depth < 3 && r.Chance(40) && next < c17MaxIDs {
 				n.ch = sel(depth+1, 3)
 			}
 			ns = append(ns, n)
